@@ -21,7 +21,7 @@ TIMEOUT = 60
 
 THEOREMS = ["Yaw.C09.init_inv", "Yaw.C09.next_inv", "Yaw.C09.progress", "Yaw.C09.terminates", "Yaw.C09.outcome",
             "Yaw.C09.sequential_agrees", "Yaw.C09.path_rule", "Yaw.C09.flags", "Yaw.C09.glue_pinned"]
-RULE = ("every fault kind (NaN / inf in each column, unequal column lengths, missing column, patch index -1 / 32768 / "
+RULE = ("every fault kind (NaN / inf in each column, unequal column lengths (one column shorter / longer than the others), missing column, patch index -1 / 32768 / "
         "65536+k, centre without object, no patch method, existing cache without overwrite, missing parent directory, "
         "path is a file, overwrite of a non-catalog directory, reader exception, worker exception) x chunk position "
         "(first / middle / last) x worker count (1, 2, 4), plus fault-free controls, each executed in its own "
@@ -132,6 +132,11 @@ def run(prop, tier, seed, replay):
         add("worker-fault", dict(common, columns=base_cols(), centres=[[0.1, 0.0], [float("nan"), 0.1], [0.2, -0.2]]), "raise")
         add("missing-column", dict(common, columns=base_cols(), centres=centres, ra_name="right_ascension"), "raise")
         add("unequal-lengths", dict(common, columns=base_cols(), centres=centres, source="hdf5", truncate={"dec": n - 3}), "raise")
+        # a LONGER second column while the chunk size divides the length of the first one (no slice runs past its end)
+        add("unequal-lengths-longer-dec", dict(common, columns=base_cols(), centres=centres, source="hdf5", extend={"dec": 5}), "raise")
+        add("unequal-lengths-longer-w", dict(common, columns=base_cols(), centres=centres, source="hdf5", extend={"w": 8}), "raise")
+        add("unequal-lengths-longer-patch", dict(common, columns=base_cols(True), patch_name=True, source="hdf5",
+                                                  extend={"patch": 3}), "raise")
         add("empty-centre", dict(common, columns=base_cols(), centres=centres + [[3.0, 1.0]]), "raise")
         add("no-patch-method", dict(common, columns=base_cols()), "raise")
         add("exists-no-overwrite", dict(common, columns=base_cols(), centres=centres, overwrite=False), "raise", pre="catalog")
